@@ -9,7 +9,7 @@ def repo_hooks():
 # id -> (engine, level, technique, level text, level note, design ref)
 CHECKS = {
  "C01": ("fwsim", "exploration", "deterministic simulation: closed-loop integrator + faulty report channel and clock around the real Framework, seeded search, crash/hang containment per case",
-   "Seeded search over machines x histories x clock/report faults with the real framework in the loop; a panic, overflow, abort, CPU-time or RNG-word budget overrun, or more than 8*(E+1)*(M+1) machine steps in a call is a violation. Sampling, not proof: right level for an unbounded input space whose failures need one bad (machine, history) pair.",
+   "Seeded search over machines x histories x clock/report faults with the real framework in the loop; a panic, overflow, abort, CPU-time or RNG-word budget overrun, or more than 8*(E+1)*(M+1) machine steps in a call is a violation. 30 % of the cases drive the framework through the crate's own Instant implementation for std::time::Instant (same virtual times); one case in ten offers a machine with one field invalidated and runs it if validation accepts it. Sampling, not proof: right level for an unbounded input space whose failures need one bad (machine, history) pair.",
    "Trusts the H1 Deliver records as the step count, the harness profile (overflow-checks + debug-assertions on the repo crates) and that fair seeded streams are the random sources in scope (adversarial streams belong to C13).", "DESIGN.md §6 C01"),
  "C04": ("fwsim", "exploration", "deterministic simulation: per-call output-contract invariant over closed-loop histories with fault injection",
    "Every call of every simulated history is checked against the output contract (distinct existing ids, kind+flags of some state of the named machine, <= 24 h, nothing after END).",
@@ -17,8 +17,8 @@ CHECKS = {
 }
 
 CHECKS["C05"] = ("fwsim", "exploration", "deterministic simulation: lock-step refinement of the real Framework against an executable reference semantics under fault-injected histories, plus twin/clone replay determinism",
-   "Every call of every simulated history is compared (actions, current state, counters, remaining limit) with an independent executable reference of the stated semantics; original, identically-built twin and mid-history clone must agree forever. Seeded search incl. a densely sampled small scope; not exhaustive.",
-   "Reference semantics hand-written from documentation + property statements (mirrors code where those are silent); Dist::sample trusted as a leaf; comparisons within 1e-12 of a fraction limit are skipped.", "DESIGN.md §5, §6 C05")
+   "Every call of every simulated history is compared (actions, current state, counters, remaining limit) with an independent executable reference of the stated semantics; original, identically-built twin (always on the other clock type: virtual clock vs std::time::Instant) and mid-history clone must agree forever. Seeded search incl. a densely sampled small scope; not exhaustive.",
+   "Reference semantics hand-written from documentation + property statements (mirrors code where those are silent); Dist::sample trusted as a leaf for random distributions (constants, with start offset and maximum, are computed by the reference from the documented rule); comparisons within 1e-12 of a fraction limit are skipped.", "DESIGN.md §5, §6 C05")
 CHECKS["C02"] = ("fwsim", "exploration", "deterministic simulation: independent recount of NormalSent/PaddingSent reports as invariant over fault-injected single-event histories",
    "Whenever a single-event call of a simulated history returns SendPadding, the budget predicate of the statement is re-evaluated from an independent recount of the reports (exact rational and f64, alarm only if both agree).",
    "Histories are sampled; batches are covered via C05.", "DESIGN.md §6 C02")
@@ -38,7 +38,7 @@ CHECKS["C10"] = ("fwsim", "exploration", "deterministic simulation: differential
    "The same fault-injected history drives the combined framework and the target alone (ids renamed); the target's actions must agree call by call.",
    "Target from the det family so the shared RNG cannot matter; neighbours never signal; framework fractions 0.", "DESIGN.md §6 C10")
 CHECKS["C06"] = ("drawspace", "fault_enumeration", "deterministic simulation with exhaustive enumeration of the random-source seam: all 2^23 uniform draws injected per probability vector",
-   "Per generated probability vector the complete space of the uniform draw is injected through the simulated random source and the chosen targets counted against exact rational thresholds; a stratified subset also goes through Framework::trigger_events. Exhaustive per vector, sampled across vectors.",
+   "Per generated probability vector the complete space of the uniform draw is injected through the simulated random source and the chosen targets counted against exact rational thresholds; a stratified subset also goes through Framework::trigger_events. The event the transitions are declared for is a case parameter (all 13), every other event is probed and must not move the machine, and a lookup sub-check compares sample_state / get_transitions event by event for a state with one transition per event of a random set. Exhaustive per vector, sampled across vectors.",
    "Assumes the draw is the top 23 bits of one 32-bit word (rand 0.8 f32 gen_range). Non-dyadic vectors get a tolerance of one grid step per target for legitimate rounding of partial sums.", "DESIGN.md §6 C06")
 CHECKS["C14"] = ("simsut", "exploration", "deterministic simulation of the repo simulator as SUT: fault-free network baseline over generated traces, tie schedules and delays",
    "Machine-less simulations of generated traces must reproduce exactly the input send/receive times on the client and the delay-shifted mirror on the server, through sim and sim_advanced and all filters.",
@@ -59,13 +59,13 @@ CHECKS["C18"] = ("simsut", "exploration", "deterministic simulation: H2 log repl
    "TimerBegin must follow an UpdateTimer of that instant and is owed whenever the action set or changed the timer; TimerEnd exactly once at the model's expiry, never for a cancelled/superseded timer; the H2b expiry records decide same-instant order exactly (a timer cancelled at its expiry instant before it expired must not expire).",
    "An UpdateTimer that changes nothing permits but does not require a TimerBegin.", "DESIGN.md §6 C18")
 CHECKS["C13"] = ("distsim", "exploration", "deterministic simulation with fault injection on the random-source seam: scripted extreme-word prefixes followed by a fair stream, against Dist::sample and the framework's consumers, with per-case crash/hang containment",
-   "Validated distributions of all 11 families (corner and random parameters) are sampled under adversarial prefixes of the random source, directly and as timeout/duration/limit/counter value inside a framework; a panic, hang (word budget / CPU limit) or out-of-range value is a violation. Two defects of the rand_distr dependency (D5 hang, D9 assertion) are matched narrowly as known findings.",
+   "Validated distributions of all 11 families (corner and random parameters) are sampled under adversarial prefixes of the random source, directly and as timeout/duration/limit/counter value inside a framework; a panic, hang (word budget / CPU limit) or out-of-range value is a violation. Parameter candidates deliberately reach one step beyond every limit validation sets (Binomial trials and probabilities, Uniform ranges up to f64::MAX, NaN / infinite / negative parameters) and are filtered by validation itself, and distributions validation rejects are offered to machine validation in every slot that holds one: whatever a relaxed validation lets through is sampled. Two defects of the rand_distr dependency (D5 hang, D9 assertion) are matched narrowly as known findings.",
    "'Real number' read as not-NaN (+inf is produced by validated parameters by construction); D5's trigger generated at a reduced rate.", "DESIGN.md §6 C13, §8")
 CHECKS["C11"] = ("codec", "fault_enumeration", "deterministic simulation with fault injection on the stored artefact: corruption catalogue and exhaustive truncation/bit-flip sweeps on machine strings, compression bombs under a counting allocator, restart-from-strings behavioural comparison",
-   "Fault-free baseline (round trip incl. sizes crossing 32 KiB / 256 KiB compressed and approaching 1 MiB, behavioural identity under a fault-injected history) plus the storage-fault catalogue against from_str and the legacy v1 parser; every truncation point and single-bit flip of small encodings is enumerated; peak memory of from_str is measured against 192 MiB + 4*len(input).",
+   "Fault-free baseline (round trip incl. sizes crossing 32 KiB / 256 KiB compressed and approaching 1 MiB, behavioural identity under a fault-injected history) plus the storage-fault catalogue against from_str and the legacy v1 parser; every truncation point and single-bit flip of small encodings is enumerated; peak memory of from_str is measured against 192 MiB + 4*len(input). Well-formed encodings of machines with exactly one invalid field must be refused exactly as Machine::new refuses them. Every case runs on a thread of its own and parses a valid reference string before and after its inputs: an error return is a fault after which the parser must be as good as new (history independence).",
    "Round trip is input generation (the no-fault baseline of the channel). Memory constant derived from the largest machine a 1 MiB payload can describe (measured peak 68 MB).", "DESIGN.md §6 C11")
 CHECKS["C20"] = ("ffisim", "exploration", "deterministic simulation: C API and Rust framework in lock-step under a virtual clock and seeded entropy (hook H3), canary-guarded output buffers, start-argument fault injection, start/stop cycles under a counting allocator",
-   "Seeded batches over all event types and ids drive maybenot_on_events and identically seeded Rust reference frameworks; every written action is compared field for field, guard slots and unused slots must stay untouched, count <= num_machines; start arguments (framings, non-UTF-8, corrupt strings, bad fractions, null pointers) are compared with a harness-side reference of the Rust API; repeated start/stop must return the heap to its previous level.",
+   "Seeded batches over all event types and ids drive maybenot_on_events and identically seeded Rust reference frameworks; every written action is compared field for field, guard slots and unused slots must stay untouched, count <= num_machines; start arguments (framings, non-UTF-8, corrupt strings, bad fractions, null pointers) are compared with a harness-side reference of the Rust API; repeated start/stop must return the heap to its previous level, and so must every start that fails (null out pointer with valid machines, every rejected start-argument case); null pointers are tried with a one-event and with an empty batch.",
    "Exercised from Rust (maybenot.h not compiled). Real start instant bracketed by two references (before/after); disagreement between them ends the case as ambiguous. An over-long but never written output slice is invisible to canaries (Miri would see it).", "DESIGN.md §6 C20")
 NOT_YET = {}
 NA = {
